@@ -39,7 +39,10 @@ def FS.get (fs : FS) (p : Path) : Option File :=
   | [] => none
   | (q, f) :: rest => if q = p then some f else FS.get rest p
 
-def FS.del (fs : FS) (p : Path) : FS := fs.filter (fun e => e.1 ≠ p)
+def FS.del (fs : FS) (p : Path) : FS :=
+  match fs with
+  | [] => []
+  | (q, f) :: rest => if q = p then FS.del rest p else (q, f) :: FS.del rest p
 
 def FS.set (fs : FS) (p : Path) (f : File) : FS := (p, f) :: FS.del fs p
 
@@ -135,10 +138,26 @@ structure Job where
 
 /-- `knut format f1 f2 …`: every file is handled on its own (`iter.Map`); the model runs them one after the
 other (they touch disjoint paths, see `C18_files_independent`) -/
-def rewriteAll (render : Bytes → Option Bytes) (jobs : List Job) (fs : FS) : FS × List Outcome :=
-  jobs.foldl (fun acc j =>
-    let r := rewriteFile render j.sc j.tmp j.target acc.1
-    (r.final, acc.2 ++ [r.outcome])) (fs, [])
+def rewriteAll (render : Bytes → Option Bytes) : List Job → FS → FS × List Outcome
+  | [], fs => (fs, [])
+  | j :: js, fs =>
+    let r := rewriteFile render j.sc j.tmp j.target fs
+    let rest := rewriteAll render js r.final
+    (rest.1, r.outcome :: rest.2)
+
+/-- the outcome of `writeFile` as a function of the scenario, the new content and the old target alone -/
+def writeOutcome (sc : Scenario) (new : Bytes) (old : Option File) : Outcome :=
+  if sc.fault = some .createTemp then .error .createTemp else
+  if written sc new < new.length ∨ sc.fault = some .write then .error .write else
+  if sc.fault = some .fsync then .error .fsync else
+  if sc.fault = some .close then .error .close else
+  if sc.fault = some .statTarget then .error .statTarget else
+  match old with
+  | none => if sc.fault = some .rename then .error .rename else .ok
+  | some o =>
+    if sc.fault = some .statTemp then .error .statTemp else
+    if sc.fault = some .chmod ∧ o.mode ≠ 0o600 then .error .chmod else
+    if sc.fault = some .rename then .error .rename else .ok
 
 /-- the command's exit status: 0 iff every file succeeded -/
 def exitOK (os : List Outcome) : Bool := os.all (fun o => o == .ok)
